@@ -207,12 +207,16 @@ def run_direct(rng, n, fns, known_filter=None, gen_kw=None, res=None):
             skipped += 1
             continue
         for name, fn in fns:
+            direct.ANGLE_MAX[0] = 0.0
             try:
                 ok, info = fn(case, rng, kp)
             except Exception as e:  # an exception on a valid input is itself a failing case
                 ok, info = False, dict(what=f'{name}: implementation raised {type(e).__name__}: {e}')
             evals += 1
             if ok:
+                continue
+            if direct.angle_out_of_domain():
+                known['_outside_domain_angle_beyond_pi'] = known.get('_outside_domain_angle_beyond_pi', 0) + 1
                 continue
             k = known_filter(case, name, info) if known_filter else None
             if k:
@@ -258,12 +262,18 @@ def replay_direct(path, extra_tests=None):
         Xf[:, (1 if case['ep'] else 0) + case['ns']:] = 0
         case['Xfit'] = Xf
     rng = np.random.default_rng(common.seed())
+    direct.ANGLE_MAX[0] = 0.0
     try:
         kp = direct.build_real_top(chain)
         dp.prefit_history(kp, case)
         kp.fit_transformers(case['Xfit'], n_inputs=case['nu'], episode_feature=case['ep'])
+        direct.ANGLE_MAX[0] = 0.0
         ok, info = tests[c['test']](case, rng, kp)
     except Exception as e:  # noqa
         ok, info = False, dict(what=f'implementation raised {type(e).__name__}: {e}')
+    if not ok and direct.angle_out_of_domain():
+        print('replayed', c['test'], '-> outside the domain of the property: an angle feature beyond (-pi, pi] reached an '
+              'AnglePreprocessor (|angle| max', direct.ANGLE_MAX[0], ')')
+        return 0
     print('replayed', c['test'], '->', 'holds' if ok else ('FAILS: ' + json.dumps(info, default=str)[:1500]))
     return 0 if ok else 1
